@@ -52,7 +52,9 @@ func selectorLabel(sel cue.Selector) string {
 	// We shouldn't get anything other than non-hidden
 	// fields and definitions because we've not asked the
 	// Fields iterator for those or created them explicitly.
-	panic(fmt.Sprintf("unreachable %v", sel.Type()))
+	// It does happen with unusual inputs though (list elements, references to
+	// comprehensions, ...): the selector is used as it is.
+	return sel.String()
 }
 
 // from https://github.com/cue-lang/cue/blob/99e8578ac45e5e7e6ebf25794303bc916744c0d3/encoding/openapi/build.go#L490
